@@ -1,5 +1,5 @@
 SPECIFICATION TSpec
-CONSTANT Policy = {0, 1, 2, 3, 4, 5}
+CONSTANT Policy = {0, 1, 2, 3, 4, 5, 6}
 CONSTANT Aspects = {}
 POSTCONDITION Accepted
 CHECK_DEADLOCK FALSE
